@@ -37,7 +37,7 @@ def run(ctx):
         mc(ctx, 3, "{1,2}", "{0}", "TRUE")                        # noopCacheManager (SkipCache)
         mc(ctx, 2, "{1,2}", "{0,1}", "FALSE")                     # two cache kinds (plain + compressed)
         mc(ctx, 2, "{1,2}", "{0}", "FALSE", cfg="FSCacheMClive.cfg")   # + liveness: everything opened gets closed
-    ntr = ctx.pick(36, 400)
+    ntr = ctx.pick(30, 400)
     recs = ctx.go_test(".", ["c25_"], "^TestVerifC25FSCache$", timeout=2400, env={"VERIF_C25_TRACES": ntr})
     ctx.absorb(recs)
     tf = ctx.extra.pop("trace_file", None)
